@@ -6,6 +6,9 @@ import (
 	"strings"
 	"time"
 
+	mqtt "github.com/mochi-mqtt/server/v2"
+	"github.com/mochi-mqtt/server/v2/packets"
+
 	"verif/explore"
 	"verif/ref"
 	"verif/world"
@@ -426,16 +429,31 @@ func init() {
 				c.Rep.Count(ck, n)
 			}
 		}
+		// non-vacuity of the evidence that separates the two missed-cancellation windows: some
+		// explored schedule of a resuming takeover must have the old connection's delayed will
+		// registered at the instant the new connection's CONNACK is written
+		var atConnack int64
+		judged := false
 		for _, s := range c16RaceScenarios {
 			if c.Expired() {
 				c.Rep.Capped("race " + s + " not started (deadline)")
 				continue
 			}
-			_, last := explore.IterateDFS(c, "c16race", s, bounds, perBudget(racePer))
+			done, last := explore.IterateDFS(c, "c16race", s, bounds, perBudget(racePer))
 			if last != nil {
 				for ck, n := range last.Counters {
 					c.Rep.Count("race_"+ck, n)
 				}
+				if !strings.Contains(s, "takeAc") && done != nil && done.Preempt >= 1 {
+					judged = true
+					atConnack += last.Counters["delayed_will_registered_when_connack_written"]
+				}
+			}
+		}
+		if judged {
+			c.Rep.Count("nonvacuity:race_delayed_will_registered_when_connack_written", atConnack)
+			if atConnack == 0 {
+				c.Rep.Add(explore.Violation{Key: "internal:vacuous:c16race-will-registered-when-connack-written", Msg: "no explored schedule of a Clean Start 0 takeover had the old connection's delayed will registered when the new connection's CONNACK was written: the classifier of missed cancellations was never exercised"})
 			}
 		}
 	})
@@ -455,6 +473,110 @@ func init() {
 // resumed at the instant the old connection ended, i.e. before the delay passed: the will
 // must never be published. With takeAc the session ended: the will must be published
 // exactly once by the housekeeping.
+//
+// Which cancellation was missed is told apart by evidence, not by the symptom: a passive hook
+// (c16Watch) notes, at the instants of the new connection's attach that hooks can see
+// (OnSessionEstablish, CONNACK written, OnSessionEstablished), whether a delayed will of a is
+// registered, and where the old connection's OnWill / OnDisconnect fall in that order.
+// The CONNACK tells the client that its session was resumed; a delayed will that is
+// registered at that instant belongs to the connection that has just been replaced and the
+// attach must remove it before it completes [MQTT-3.1.3-9]. A will that is there when the
+// CONNACK is written, is still there when the race has ended and is then published is
+// reported as ...:registered-before-connack-not-cancelled. Only a will that was NOT yet
+// registered when the CONNACK was written (the old handler decided to register it before it
+// could see the new client and stored it after the attach had cancelled) is the separately
+// recorded window ...:late-delayed-registration.
+
+// c16Watch is a passive hook (it changes nothing): it samples the delayed-will registry at
+// the hook instants of the connections of one client id.
+type c16Watch struct {
+	mqtt.HookBase
+	w     *world.World
+	id    string
+	conns []*mqtt.Client // connections of id in the order of their OnSessionEstablish
+	marks []c16Mark
+}
+
+type c16Mark struct {
+	ev      string // establish connack established will disconnect
+	conn    int    // index into conns (0 = the first connection of id)
+	present bool   // a delayed will of id is registered at this instant
+}
+
+func (h *c16Watch) ID() string { return "c16watch" }
+
+func (h *c16Watch) Provides(b byte) bool {
+	switch b {
+	case mqtt.OnSessionEstablish, mqtt.OnPacketSent, mqtt.OnSessionEstablished, mqtt.OnWill, mqtt.OnDisconnect:
+		return true
+	}
+	return false
+}
+
+func (h *c16Watch) mark(ev string, cl *mqtt.Client) {
+	if h.w == nil || cl == nil || cl.ID != h.id {
+		return
+	}
+	idx := -1
+	for i, c := range h.conns {
+		if c == cl {
+			idx = i
+		}
+	}
+	if idx < 0 {
+		h.conns = append(h.conns, cl)
+		idx = len(h.conns) - 1
+	}
+	_, present := h.w.S.VerifWillDelayed().Get(h.id)
+	h.marks = append(h.marks, c16Mark{ev, idx, present})
+}
+
+func (h *c16Watch) OnSessionEstablish(cl *mqtt.Client, pk packets.Packet) { h.mark("establish", cl) }
+func (h *c16Watch) OnSessionEstablished(cl *mqtt.Client, pk packets.Packet) {
+	h.mark("established", cl)
+}
+func (h *c16Watch) OnDisconnect(cl *mqtt.Client, err error, expire bool) { h.mark("disconnect", cl) }
+func (h *c16Watch) OnPacketSent(cl *mqtt.Client, pk packets.Packet, b []byte) {
+	if pk.FixedHeader.Type == packets.Connack {
+		h.mark("connack", cl)
+	}
+}
+func (h *c16Watch) OnWill(cl *mqtt.Client, will mqtt.Will) (mqtt.Will, error) {
+	h.mark("will", cl)
+	return will, nil
+}
+
+// at returns whether a delayed will was registered at event ev of connection conn
+// (seen=false when that instant was never reached).
+func (h *c16Watch) at(ev string, conn int) (present, seen bool) {
+	for _, m := range h.marks {
+		if m.ev == ev && m.conn == conn {
+			return m.present, true
+		}
+	}
+	return false, false
+}
+
+// order renders the marks of the race (everything after the first connection's own attach)
+// as a stable string: o = old connection, n = new connection, '*' = will registered.
+func (h *c16Watch) order() string {
+	var b []string
+	for _, m := range h.marks {
+		if m.conn == 0 && (m.ev == "establish" || m.ev == "connack" || m.ev == "established") {
+			continue
+		}
+		who := "n"
+		if m.conn == 0 {
+			who = "o"
+		}
+		s := who + "." + m.ev
+		if m.present {
+			s += "*"
+		}
+		b = append(b, s)
+	}
+	return strings.Join(b, ">")
+}
 
 var c16RaceScenarios = []string{"takeA", "dropA+takeA", "pingA+takeA", "takeAc", "dropA+takeAc"}
 
@@ -468,8 +590,10 @@ func c16Race(arg string) explore.RunFn {
 		}
 	}
 	return func(prefix []int) explore.Outcome {
-		w := world.New(prefix, world.Config{})
+		watch := &c16Watch{id: "a"}
+		w := world.New(prefix, world.Config{Extra: []mqtt.Hook{watch}})
 		defer w.End()
+		watch.w = w
 		e := &concEnv{W: w}
 		w.Serve()
 		w.Run()
@@ -499,6 +623,21 @@ func c16Race(arg string) explore.RunFn {
 		if registered > 0 {
 			out.Counters["delayed_will_registered_after_race"]++
 		}
+		// evidence: was the will registered when the new connection's CONNACK was written?
+		atConnack, sawConnack := watch.at("connack", 1)
+		atEstablish, _ := watch.at("establish", 1)
+		if atConnack {
+			out.Counters["delayed_will_registered_when_connack_written"]++
+		}
+		switch {
+		case !sawConnack:
+		case atConnack && registered == 0:
+			out.Counters["will_registered_at_connack_cancelled_by_attach"]++
+		case atConnack:
+			out.Counters["will_registered_at_connack_survived_attach"]++
+		case atEstablish:
+			out.Counters["will_registered_at_session_establish_gone_at_connack"]++
+		}
 		w.Tick(3000)
 		w.Housekeep()
 		w.Tick(3000)
@@ -516,16 +655,21 @@ func c16Race(arg string) explore.RunFn {
 			out.Viol = append(out.Viol, explore.Violation{Key: "c16:race:new-connection-not-accepted", Msg: fmt.Sprintf("new connection got %v", nc.Recv)})
 		case !cleanTake && wills > 0:
 			key := "c16:will-after-resume:late-delayed-registration"
-			if registered == 0 {
+			switch {
+			case registered == 0:
 				key = "c16:will-after-resume:published-during-race"
+			case atConnack:
+				// registered before the client was told that its session is resumed, and the
+				// attach completed without cancelling it
+				key = "c16:will-after-resume:registered-before-connack-not-cancelled"
 			}
-			out.Viol = append(out.Viol, explore.Violation{Key: key, Msg: fmt.Sprintf("the Clean Start 0 connection was accepted (session present=%v) at the instant the old connection ended, yet the delayed will was published %d time(s) after housekeeping; delayed wills registered when the race ended: %d", nc.Recv[0].SessionPresent, wills, registered)})
+			out.Viol = append(out.Viol, explore.Violation{Key: key, Msg: fmt.Sprintf("the Clean Start 0 connection was accepted (session present=%v) at the instant the old connection ended, yet the delayed will was published %d time(s) after housekeeping; delayed wills registered when the race ended: %d; registered when the new connection's CONNACK was written: %v; hook order (o old, n new connection, * = delayed will registered): %s", nc.Recv[0].SessionPresent, wills, registered, atConnack, watch.order())})
 		case cleanTake && wills == 0:
 			out.Viol = append(out.Viol, explore.Violation{Key: "c16:will-missing:delay-not-cut:takeover-clean-start", Msg: fmt.Sprintf("the Clean Start 1 connection ended the session, the will must be published; none seen after two housekeepings (registered after race: %d)", registered)})
 		case cleanTake && wills > 1:
 			out.Viol = append(out.Viol, explore.Violation{Key: "c16:will-twice:takeover-clean1", Msg: fmt.Sprintf("will published %d times", wills)})
 		}
-		out.Obs = fmt.Sprintf("wills=%d registered=%d sp=%v oldclosed=%v", wills, registered, okConn && nc.Recv[0].SessionPresent, e.A.Closed())
+		out.Obs = fmt.Sprintf("wills=%d registered=%d sp=%v oldclosed=%v at-connack=%v", wills, registered, okConn && nc.Recv[0].SessionPresent, e.A.Closed(), atConnack)
 		return out
 	}
 }
